@@ -244,5 +244,47 @@ def run(chk, prog):
     ini = {i.get("target"): A.show(i["expr"]).replace(" ", "") for i in mc["inits"] if i.get("ikind") == "member"}
     chk.check("filling.begin()" in ini.get("_filling_set", "") and ini.get("_axis") in ("axis", "array(axis)", "array<meshRuler_ptr,2>(axis)") or "axis" in ini.get("_axis", ""), "R4", mc.where,
               "_filling_set and _axis are taken from the parameters", "ctor:members")
+    # ---- R5: in main, a reported moment is computed from the projection that is reported with it --------------------------------
+    # (freshness typestate of C10/R1, restricted to the dependence of population, mean and width on the projections of the same grid:
+    # staleness caused by a later projection/integral refresh of that grid, not by a change of the grid itself)
+    from .. import mainmodel as M
+    from .. import fresh as Fr
+    mm = M.MainModel(prog)
+    chk.used(mm.fn)
+    MOM = {"_moment", "_rms", "_filling", "_integral"}
+    n5, seen5 = 0, set()
+    for asg, g in mm.case_split():
+        fr = Fr.Freshness(mm, g)
+        fr.run()
+        kl = fr.killers()
+        byname = {}
+        for (_, _, n_, e_) in fr.events:
+            for sub_ in (e_.get("sequence") or [e_]):
+                byname.setdefault("%s.%s" % (sub_["var"], sub_["method"]), []).append(sub_)
+        for bid, i_, n_, e_ in fr.events:
+            if e_["var"] != "hdf_file" or not e_["method"].startswith("append"):
+                continue
+            need = {Fr.norm_loc(r) for r in e_["reads"] if r[1] in MOM}
+            if not need:
+                continue
+            n5 += 1
+            st, pos = fr.before(n_)
+            stale = sorted((r for r in need if not any(Fr.covers(f_, r) and (f_[2] == r[2] or f_[2] is None) for f_ in st)), key=str)
+            bad = set()
+            for (f_, k_) in kl[pos]:
+                if f_ not in stale:
+                    continue
+                evs = byname.get(k_, [])
+                if evs and all(f_[0] == ev["var"] and any(w[1] in ("_projection", "_filling", "_integral") for w in ev["may_writes"])
+                               and not any(w[1] == "_data" for w in ev["may_writes"]) for ev in evs):
+                    bad.add((("%s.%s%s" % (f_[0], f_[1], "" if f_[2] is None else "[%s]" % f_[2])), k_))
+            key = "main:moment-before-projection:%s" % sorted(bad)
+            if key in seen5:
+                continue
+            seen5.add(key)
+            chk.check(not bad, "R5", A.loc(mm.fn, n_),
+                      "the population, means and widths stored at this record are computed after the last refresh of the projections they are moments of%s"
+                      % ("" if not bad else ": " + ", ".join("%s is older than %s" % b_ for b_ in sorted(bad))), key)
+    chk.floor("R5-record-sites-x-cases", n5, 16)
     chk.notes.append("C09: bunch subscripts, moment/projection/Simpson formulas, normalisation factor and coverage, copy path. "
                      "NOT decided: discretisation error of the moments.")
